@@ -19,6 +19,22 @@ pub(crate) fn s_of(v: &Val) -> String {
     String::from_utf8_lossy(&v.bytes()).into_owned()
 }
 
+// a value of more than 1024 octets is printed as [-7, length, sum mod 2^32, first 4, last 4]
+pub(crate) fn bytes_digest_val(b: &[u8]) -> Val {
+    if b.len() > 1024 {
+        let sum = b.iter().fold(0u32, |acc, x| acc.wrapping_add(*x as u32));
+        Val::L(vec![
+            i(-7),
+            Val::us(b.len()),
+            Val::n(sum),
+            Val::from_bytes(&b[..4]),
+            Val::from_bytes(&b[b.len() - 4..]),
+        ])
+    } else {
+        Val::from_bytes(b)
+    }
+}
+
 pub(crate) fn attr_val(a: &Attribute) -> Val {
     if let Some(v) = a.value() {
         Val::L(vec![Val::n(a.code()), Val::n(a.flags()), i(0), Val::L(vec![Val::n(v)])])
@@ -28,7 +44,7 @@ pub(crate) fn attr_val(a: &Attribute) -> Val {
             Val::n(a.code()),
             Val::n(a.flags()),
             i(if a.is_opaque() { 2 } else { 1 }),
-            Val::from_bytes(b),
+            bytes_digest_val(b),
         ])
     }
 }
@@ -195,6 +211,11 @@ pub(crate) fn api_val(a: &api::Attribute) -> Val {
                     .collect(),
             ),
         ]),
+        Some(A::MpReach(m)) => Val::L(vec![
+            i(12),
+            Val::opt(m.family.as_ref().map(|f| Val::L(vec![Val::n(f.afi), Val::n(f.safi)]))),
+            Val::L(m.next_hops.iter().map(|s| s_val(s)).collect()),
+        ]),
         Some(_) => Val::L(vec![i(99)]),
     }
 }
@@ -249,6 +270,19 @@ pub(crate) fn api_of(v: &Val) -> api::Attribute {
                 })
                 .collect(),
         })),
+        12 => Some(A::MpReach(api::MpReachNlriAttribute {
+            family: l[1].list().first().map(|_| api::Family {
+                afi: l[1].at(0).int() as i32,
+                safi: l[1].at(1).int() as i32,
+            }),
+            next_hops: l[2].list().iter().map(s_of).collect(),
+            nlris: vec![],
+        })),
+        13 => Some(A::MpUnreach(api::MpUnreachNlriAttribute { family: None, nlris: vec![] })),
+        15 => Some(A::As4Path(api::As4PathAttribute { segments: vec![] })),
+        16 => Some(A::As4Aggregator(api::As4AggregatorAttribute { asn: 1, address: "1.2.3.4".to_string() })),
+        17 => Some(A::PmsiTunnel(api::PmsiTunnelAttribute { flags: 0, r#type: 6, label: 1, id: vec![1, 2, 3, 4] })),
+        19 => Some(A::Ip6ExtendedCommunities(api::Ip6ExtendedCommunitiesAttribute { communities: vec![] })),
         _ => Some(A::Aigp(api::AigpAttribute { tlvs: vec![] })),
     };
     api::Attribute { attr }
@@ -617,4 +651,931 @@ pub(crate) fn api_evpn_of(v: &Val) -> api::Nlri {
         }),
     };
     api::Nlri { nlri: Some(n) }
+}
+
+// ---------------------------------------------------------------- kind 8: API NLRI messages of the other families
+pub(crate) fn fs_rules_of(v: &Val) -> Vec<api::FlowSpecRule> {
+    use api::flow_spec_rule::Rule as R;
+    v.list()
+        .iter()
+        .map(|r| {
+            let l = r.list();
+            let rule = match l[0].int() {
+                0 => None,
+                1 => Some(R::IpPrefix(api::FlowSpecIpPrefix {
+                    r#type: l[1].u32(),
+                    prefix_len: l[2].u32(),
+                    prefix: s_of(&l[3]),
+                    offset: l[4].u32(),
+                })),
+                2 => Some(R::Component(api::FlowSpecComponent {
+                    r#type: l[1].u32(),
+                    items: l[2]
+                        .list()
+                        .iter()
+                        .map(|x| api::FlowSpecComponentItem { op: x.at(0).u32(), value: x.at(1).u64() })
+                        .collect(),
+                })),
+                _ => Some(R::Mac(api::FlowSpecMac { r#type: 1, address: "0:1:2:3:4:5".to_string() })),
+            };
+            api::FlowSpecRule { rule }
+        })
+        .collect()
+}
+
+pub(crate) fn fs_rules_val(rules: &[api::FlowSpecRule]) -> Val {
+    use api::flow_spec_rule::Rule as R;
+    Val::L(
+        rules
+            .iter()
+            .map(|r| match &r.rule {
+                None => Val::L(vec![i(0)]),
+                Some(R::IpPrefix(p)) => Val::L(vec![
+                    i(1),
+                    Val::n(p.r#type),
+                    Val::n(p.prefix_len),
+                    s_val(&p.prefix),
+                    Val::n(p.offset),
+                ]),
+                Some(R::Component(c)) => Val::L(vec![
+                    i(2),
+                    Val::n(c.r#type),
+                    Val::L(c.items.iter().map(|x| Val::L(vec![Val::n(x.op), Val::n(x.value)])).collect()),
+                ]),
+                Some(R::Mac(_)) => Val::L(vec![i(3)]),
+            })
+            .collect(),
+    )
+}
+
+pub(crate) fn api_rt_of(v: &Val) -> Option<api::RouteTarget> {
+    use api::route_target::Rt;
+    let l = v.list();
+    if l.is_empty() {
+        return None;
+    }
+    let rt = match l[0].int() {
+        0 => None,
+        1 => Some(Rt::TwoOctetAsSpecific(api::TwoOctetAsSpecificExtended {
+            is_transitive: l[1].bool(),
+            sub_type: l[2].u32(),
+            asn: l[3].u32(),
+            local_admin: l[4].u32(),
+        })),
+        2 => Some(Rt::Ipv4AddressSpecific(api::IPv4AddressSpecificExtended {
+            is_transitive: l[1].bool(),
+            sub_type: l[2].u32(),
+            address: s_of(&l[3]),
+            local_admin: l[4].u32(),
+        })),
+        _ => Some(Rt::FourOctetAsSpecific(api::FourOctetAsSpecificExtended {
+            is_transitive: l[1].bool(),
+            sub_type: l[2].u32(),
+            asn: l[3].u32(),
+            local_admin: l[4].u32(),
+        })),
+    };
+    Some(api::RouteTarget { rt })
+}
+
+pub(crate) fn api_rt_val(rt: &Option<api::RouteTarget>) -> Val {
+    use api::route_target::Rt;
+    match rt {
+        None => Val::L(vec![]),
+        Some(r) => match &r.rt {
+            None => Val::L(vec![i(0)]),
+            Some(Rt::TwoOctetAsSpecific(t)) => Val::L(vec![
+                i(1),
+                Val::b(t.is_transitive),
+                Val::n(t.sub_type),
+                Val::n(t.asn),
+                Val::n(t.local_admin),
+            ]),
+            Some(Rt::Ipv4AddressSpecific(t)) => Val::L(vec![
+                i(2),
+                Val::b(t.is_transitive),
+                Val::n(t.sub_type),
+                s_val(&t.address),
+                Val::n(t.local_admin),
+            ]),
+            Some(Rt::FourOctetAsSpecific(t)) => Val::L(vec![
+                i(3),
+                Val::b(t.is_transitive),
+                Val::n(t.sub_type),
+                Val::n(t.asn),
+                Val::n(t.local_admin),
+            ]),
+        },
+    }
+}
+
+// [10, rules] FlowSpec | [11, rd, rules] VpnFlowSpec | [12, length, distinguisher, color, endpoint bytes] SrPolicy
+// | [13, asn, rt] RouteTargetMembership | [14, rd, prefix] MUP ISD | [15, rd, address] MUP DSD
+// | [16, rd, prefix, teid, qfi, ea_len, endpoint, sa_len, source] MUP T1ST | [17, rd, ea_len, endpoint, teid] MUP T2ST
+#[allow(deprecated)]
+pub(crate) fn api_xnlri_of(v: &Val) -> api::Nlri {
+    use api::nlri::Nlri as N;
+    let l = v.list();
+    let n = match l[0].int() {
+        10 => N::FlowSpec(api::FlowSpecNlri { rules: fs_rules_of(&l[1]) }),
+        11 => N::VpnFlowSpec(api::VpnFlowSpecNlri { rd: api_rd_of(&l[1]), rules: fs_rules_of(&l[2]) }),
+        12 => N::SrPolicy(api::SrPolicyNlri {
+            length: l[1].u32(),
+            distinguisher: l[2].u32(),
+            color: l[3].u32(),
+            endpoint: l[4].bytes(),
+        }),
+        13 => N::RouteTargetMembership(api::RouteTargetMembershipNlri { asn: l[1].u32(), rt: api_rt_of(&l[2]) }),
+        18 => N::LsAddrPrefix(ls_addr_prefix_of(l)),
+        14 => N::MupInterworkSegmentDiscovery(api::MupInterworkSegmentDiscoveryRoute {
+            rd: api_rd_of(&l[1]),
+            prefix: s_of(&l[2]),
+        }),
+        15 => N::MupDirectSegmentDiscovery(api::MupDirectSegmentDiscoveryRoute {
+            rd: api_rd_of(&l[1]),
+            address: s_of(&l[2]),
+        }),
+        16 => N::MupType1SessionTransformed(api::MupType1SessionTransformedRoute {
+            rd: api_rd_of(&l[1]),
+            prefix_length: 0,
+            prefix: s_of(&l[2]),
+            teid: l[3].u32(),
+            qfi: l[4].u32(),
+            endpoint_address_length: l[5].u32(),
+            endpoint_address: s_of(&l[6]),
+            source_address_length: l[7].u32(),
+            source_address: s_of(&l[8]),
+        }),
+        _ => N::MupType2SessionTransformed(api::MupType2SessionTransformedRoute {
+            rd: api_rd_of(&l[1]),
+            endpoint_address_length: l[2].u32(),
+            endpoint_address: s_of(&l[3]),
+            teid: l[4].u32(),
+        }),
+    };
+    api::Nlri { nlri: Some(n) }
+}
+
+#[allow(deprecated)]
+pub(crate) fn api_xnlri_val(n: &api::Nlri) -> Val {
+    use api::nlri::Nlri as N;
+    match &n.nlri {
+        Some(N::FlowSpec(f)) => Val::L(vec![i(10), fs_rules_val(&f.rules)]),
+        Some(N::VpnFlowSpec(f)) => Val::L(vec![i(11), api_rd_val(&f.rd), fs_rules_val(&f.rules)]),
+        Some(N::SrPolicy(s)) => Val::L(vec![
+            i(12),
+            Val::n(s.length),
+            Val::n(s.distinguisher),
+            Val::n(s.color),
+            Val::from_bytes(&s.endpoint),
+        ]),
+        Some(N::RouteTargetMembership(r)) => Val::L(vec![i(13), Val::n(r.asn), api_rt_val(&r.rt)]),
+        Some(N::MupInterworkSegmentDiscovery(r)) => Val::L(vec![i(14), api_rd_val(&r.rd), s_val(&r.prefix)]),
+        Some(N::MupDirectSegmentDiscovery(r)) => Val::L(vec![i(15), api_rd_val(&r.rd), s_val(&r.address)]),
+        Some(N::MupType1SessionTransformed(r)) => Val::L(vec![
+            i(16),
+            api_rd_val(&r.rd),
+            s_val(&r.prefix),
+            Val::n(r.teid),
+            Val::n(r.qfi),
+            Val::n(r.endpoint_address_length),
+            s_val(&r.endpoint_address),
+            Val::n(r.source_address_length),
+            s_val(&r.source_address),
+        ]),
+        Some(N::LsAddrPrefix(a)) => ls_addr_prefix_val(a),
+        Some(N::MupType2SessionTransformed(r)) => Val::L(vec![
+            i(17),
+            api_rd_val(&r.rd),
+            Val::n(r.endpoint_address_length),
+            s_val(&r.endpoint_address),
+            Val::n(r.teid),
+        ]),
+        _ => Val::L(vec![i(99)]),
+    }
+}
+
+// ---------------------------------------------------------------- kind 9: typed PREFIX_SID / TUNNEL_ENCAP messages
+// PrefixSid: [tlv ...]; tlv = [0] | [3 | 4, [[key, [sub ...]] ...]] (3 = L3 service, 4 = L2 service);
+//   sub = [0] | [1, sid bytes, endpoint behaviour, [[key, [subsub ...]] ...]]; subsub = [0] | [1, six lengths ...]
+pub(crate) fn prefix_sid_api_of(v: &Val) -> api::PrefixSid {
+    let subsubs = |v: &Val| -> std::collections::HashMap<u32, api::SRv6SubSubTlVs> {
+        v.list()
+            .iter()
+            .map(|e| {
+                let tlvs = e
+                    .at(1)
+                    .list()
+                    .iter()
+                    .map(|s| api::SRv6SubSubTlv {
+                        tlv: if s.at(0).int() == 0 {
+                            None
+                        } else {
+                            Some(api::s_rv6_sub_sub_tlv::Tlv::Structure(api::SRv6StructureSubSubTlv {
+                                locator_block_length: s.at(1).u32(),
+                                locator_node_length: s.at(2).u32(),
+                                function_length: s.at(3).u32(),
+                                argument_length: s.at(4).u32(),
+                                transposition_length: s.at(5).u32(),
+                                transposition_offset: s.at(6).u32(),
+                            }))
+                        },
+                    })
+                    .collect();
+                (e.at(0).u32(), api::SRv6SubSubTlVs { tlvs })
+            })
+            .collect()
+    };
+    let subs = |v: &Val| -> std::collections::HashMap<u32, api::SRv6SubTlVs> {
+        v.list()
+            .iter()
+            .map(|e| {
+                let tlvs = e
+                    .at(1)
+                    .list()
+                    .iter()
+                    .map(|s| api::SRv6SubTlv {
+                        tlv: if s.at(0).int() == 0 {
+                            None
+                        } else {
+                            Some(api::s_rv6_sub_tlv::Tlv::Information(api::SRv6InformationSubTlv {
+                                sid: s.at(1).bytes(),
+                                flags: Some(api::SRv6SidFlags { flag_1: false }),
+                                endpoint_behavior: s.at(2).u32(),
+                                sub_sub_tlvs: subsubs(s.at(3)),
+                            }))
+                        },
+                    })
+                    .collect();
+                (e.at(0).u32(), api::SRv6SubTlVs { tlvs })
+            })
+            .collect()
+    };
+    let tlvs = v
+        .list()
+        .iter()
+        .map(|t| api::prefix_sid::Tlv {
+            tlv: match t.at(0).int() {
+                0 => None,
+                3 => Some(api::prefix_sid::tlv::Tlv::L3Service(api::SRv6L3ServiceTlv { sub_tlvs: subs(t.at(1)) })),
+                _ => Some(api::prefix_sid::tlv::Tlv::L2Service(api::SRv6L2ServiceTlv { sub_tlvs: subs(t.at(1)) })),
+            },
+        })
+        .collect();
+    api::PrefixSid { tlvs }
+}
+
+pub(crate) fn prefix_sid_api_val(p: &api::PrefixSid) -> Val {
+    fn sorted<T>(m: &std::collections::HashMap<u32, T>) -> Vec<(&u32, &T)> {
+        let mut v: Vec<_> = m.iter().collect();
+        v.sort_by_key(|e| *e.0);
+        v
+    }
+    let subsubs = |m: &std::collections::HashMap<u32, api::SRv6SubSubTlVs>| -> Val {
+        Val::L(
+            sorted(m)
+                .into_iter()
+                .map(|(k, t)| {
+                    Val::L(vec![
+                        Val::n(*k),
+                        Val::L(
+                            t.tlvs
+                                .iter()
+                                .map(|s| match &s.tlv {
+                                    None => Val::L(vec![i(0)]),
+                                    Some(api::s_rv6_sub_sub_tlv::Tlv::Structure(x)) => Val::L(vec![
+                                        i(1),
+                                        Val::n(x.locator_block_length),
+                                        Val::n(x.locator_node_length),
+                                        Val::n(x.function_length),
+                                        Val::n(x.argument_length),
+                                        Val::n(x.transposition_length),
+                                        Val::n(x.transposition_offset),
+                                    ]),
+                                })
+                                .collect(),
+                        ),
+                    ])
+                })
+                .collect(),
+        )
+    };
+    let subs = |m: &std::collections::HashMap<u32, api::SRv6SubTlVs>| -> Val {
+        Val::L(
+            sorted(m)
+                .into_iter()
+                .map(|(k, t)| {
+                    Val::L(vec![
+                        Val::n(*k),
+                        Val::L(
+                            t.tlvs
+                                .iter()
+                                .map(|s| match &s.tlv {
+                                    None => Val::L(vec![i(0)]),
+                                    Some(api::s_rv6_sub_tlv::Tlv::Information(x)) => Val::L(vec![
+                                        i(1),
+                                        Val::from_bytes(&x.sid),
+                                        Val::n(x.endpoint_behavior),
+                                        subsubs(&x.sub_sub_tlvs),
+                                    ]),
+                                })
+                                .collect(),
+                        ),
+                    ])
+                })
+                .collect(),
+        )
+    };
+    Val::L(
+        p.tlvs
+            .iter()
+            .map(|t| match &t.tlv {
+                None => Val::L(vec![i(0)]),
+                Some(api::prefix_sid::tlv::Tlv::L3Service(x)) => Val::L(vec![i(3), subs(&x.sub_tlvs)]),
+                Some(api::prefix_sid::tlv::Tlv::L2Service(x)) => Val::L(vec![i(4), subs(&x.sub_tlvs)]),
+            })
+            .collect(),
+    )
+}
+
+// TunnelEncap: [tlv ...]; tlv = [tunnel type, [sub ...]]; sub =
+//   [0] oneof missing | [1, flags, preference] | [2, 0] binding SID without a form | [2, 1, s, i, sid bytes] MPLS
+//   | [2, 2, s, i, b, sid bytes, ebs] SRv6 | [3, flags, enlp] | [4, priority] | [5, name] | [6, weight, [segment ...]]
+//   | [7, type, value] unknown | [8, colour] (stands for the sub-TLV kinds the converter does not know)
+//   ebs = [] | [behaviour, block, node, function, argument]; weight = [] | [flags, weight];
+//   segment = [0] | [1, fl, label] | [2, fl, sid bytes, ebs]; fl = [] | [v, a, s, b]
+fn ebs_of(v: &Val) -> Option<api::SRv6EndPointBehavior> {
+    let l = v.list();
+    if l.is_empty() {
+        None
+    } else {
+        Some(api::SRv6EndPointBehavior {
+            behavior: l[0].int() as i32,
+            block_len: l[1].u32(),
+            node_len: l[2].u32(),
+            func_len: l[3].u32(),
+            arg_len: l[4].u32(),
+        })
+    }
+}
+fn ebs_val(e: &Option<api::SRv6EndPointBehavior>) -> Val {
+    match e {
+        None => Val::L(vec![]),
+        Some(e) => Val::L(vec![
+            Val::n(e.behavior),
+            Val::n(e.block_len),
+            Val::n(e.node_len),
+            Val::n(e.func_len),
+            Val::n(e.arg_len),
+        ]),
+    }
+}
+fn segflags_of(v: &Val) -> Option<api::SegmentFlags> {
+    let l = v.list();
+    if l.is_empty() {
+        None
+    } else {
+        Some(api::SegmentFlags { v_flag: l[0].bool(), a_flag: l[1].bool(), s_flag: l[2].bool(), b_flag: l[3].bool() })
+    }
+}
+fn segflags_val(f: &Option<api::SegmentFlags>) -> Val {
+    match f {
+        None => Val::L(vec![]),
+        Some(f) => Val::L(vec![Val::b(f.v_flag), Val::b(f.a_flag), Val::b(f.s_flag), Val::b(f.b_flag)]),
+    }
+}
+
+pub(crate) fn tunnel_encap_api_of(v: &Val) -> api::TunnelEncapAttribute {
+    use api::tunnel_encap_sub_tlvsr_binding_sid::Bsid;
+    use api::tunnel_encap_sub_tlvsr_segment_list::{Segment, segment::Segment as Seg};
+    use api::tunnel_encap_tlv::tlv::Tlv as T;
+    let sub = |s: &Val| -> api::tunnel_encap_tlv::Tlv {
+        let l = s.list();
+        let tlv = match l[0].int() {
+            0 => None,
+            1 => Some(T::SrPreference(api::TunnelEncapSubTlvsrPreference { flags: l[1].u32(), preference: l[2].u32() })),
+            2 => Some(T::SrBindingSid(api::TunnelEncapSubTlvsrBindingSid {
+                bsid: match l[1].int() {
+                    0 => None,
+                    1 => Some(Bsid::SrBindingSid(api::SrBindingSid {
+                        s_flag: l[2].bool(),
+                        i_flag: l[3].bool(),
+                        sid: l[4].bytes(),
+                    })),
+                    _ => Some(Bsid::Srv6BindingSid(api::SRv6BindingSid {
+                        s_flag: l[2].bool(),
+                        i_flag: l[3].bool(),
+                        b_flag: l[4].bool(),
+                        sid: l[5].bytes(),
+                        endpoint_behavior_structure: ebs_of(&l[6]),
+                    })),
+                },
+            })),
+            3 => Some(T::SrEnlp(api::TunnelEncapSubTlvsrenlp { flags: l[1].u32(), enlp: l[2].int() as i32 })),
+            4 => Some(T::SrPriority(api::TunnelEncapSubTlvsrPriority { priority: l[1].u32() })),
+            5 => Some(T::SrCandidatePathName(api::TunnelEncapSubTlvsrCandidatePathName {
+                candidate_path_name: s_of(&l[1]),
+            })),
+            6 => Some(T::SrSegmentList(api::TunnelEncapSubTlvsrSegmentList {
+                weight: {
+                    let w = l[1].list();
+                    if w.is_empty() { None } else { Some(api::SrWeight { flags: w[0].u32(), weight: w[1].u32() }) }
+                },
+                segments: l[2]
+                    .list()
+                    .iter()
+                    .map(|g| Segment {
+                        segment: match g.at(0).int() {
+                            0 => None,
+                            1 => Some(Seg::A(api::SegmentTypeA { flags: segflags_of(g.at(1)), label: g.at(2).u32() })),
+                            _ => Some(Seg::B(api::SegmentTypeB {
+                                flags: segflags_of(g.at(1)),
+                                sid: g.at(2).bytes(),
+                                endpoint_behavior_structure: ebs_of(g.at(3)),
+                            })),
+                        },
+                    })
+                    .collect(),
+            })),
+            7 => Some(T::Unknown(api::TunnelEncapSubTlvUnknown { r#type: l[1].u32(), value: l[2].bytes() })),
+            _ => Some(T::Color(api::TunnelEncapSubTlvColor { color: l[1].u32() })),
+        };
+        api::tunnel_encap_tlv::Tlv { tlv }
+    };
+    api::TunnelEncapAttribute {
+        tlvs: v
+            .list()
+            .iter()
+            .map(|t| api::TunnelEncapTlv { r#type: t.at(0).u32(), tlvs: t.at(1).list().iter().map(sub).collect() })
+            .collect(),
+    }
+}
+
+pub(crate) fn tunnel_encap_api_val(a: &api::TunnelEncapAttribute) -> Val {
+    use api::tunnel_encap_sub_tlvsr_binding_sid::Bsid;
+    use api::tunnel_encap_sub_tlvsr_segment_list::segment::Segment as Seg;
+    use api::tunnel_encap_tlv::tlv::Tlv as T;
+    let sub = |s: &api::tunnel_encap_tlv::Tlv| -> Val {
+        match &s.tlv {
+            None => Val::L(vec![i(0)]),
+            Some(T::SrPreference(p)) => Val::L(vec![i(1), Val::n(p.flags), Val::n(p.preference)]),
+            Some(T::SrBindingSid(b)) => match &b.bsid {
+                None => Val::L(vec![i(2), i(0)]),
+                Some(Bsid::SrBindingSid(x)) => {
+                    Val::L(vec![i(2), i(1), Val::b(x.s_flag), Val::b(x.i_flag), Val::from_bytes(&x.sid)])
+                }
+                Some(Bsid::Srv6BindingSid(x)) => Val::L(vec![
+                    i(2),
+                    i(2),
+                    Val::b(x.s_flag),
+                    Val::b(x.i_flag),
+                    Val::b(x.b_flag),
+                    Val::from_bytes(&x.sid),
+                    ebs_val(&x.endpoint_behavior_structure),
+                ]),
+            },
+            Some(T::SrEnlp(e)) => Val::L(vec![i(3), Val::n(e.flags), Val::n(e.enlp)]),
+            Some(T::SrPriority(p)) => Val::L(vec![i(4), Val::n(p.priority)]),
+            Some(T::SrCandidatePathName(n)) => Val::L(vec![i(5), s_val(&n.candidate_path_name)]),
+            Some(T::SrSegmentList(sl)) => Val::L(vec![
+                i(6),
+                match &sl.weight {
+                    None => Val::L(vec![]),
+                    Some(w) => Val::L(vec![Val::n(w.flags), Val::n(w.weight)]),
+                },
+                Val::L(
+                    sl.segments
+                        .iter()
+                        .map(|g| match &g.segment {
+                            None => Val::L(vec![i(0)]),
+                            Some(Seg::A(a)) => Val::L(vec![i(1), segflags_val(&a.flags), Val::n(a.label)]),
+                            Some(Seg::B(b)) => Val::L(vec![
+                                i(2),
+                                segflags_val(&b.flags),
+                                Val::from_bytes(&b.sid),
+                                ebs_val(&b.endpoint_behavior_structure),
+                            ]),
+                        })
+                        .collect(),
+                ),
+            ]),
+            Some(T::Unknown(u)) => Val::L(vec![i(7), Val::n(u.r#type), Val::from_bytes(&u.value)]),
+            Some(_) => Val::L(vec![i(8), i(0)]),
+        }
+    };
+    Val::L(a.tlvs.iter().map(|t| Val::L(vec![Val::n(t.r#type), Val::L(t.tlvs.iter().map(sub).collect())])).collect())
+}
+
+// LsAttribute (kind 9, w = 2): [node, link, prefix, peer segment, extras]
+//   node = [] | [name, flags ([] | six 0/1), router id, router id v6, isis area, opaque, SR capabilities ([] | [v4, v6, [[begin, end] ...]]),
+//                SR algorithms, SR local block ([] | [[begin, end] ...])]
+//   link = [] | [name, local id, local id v6, remote id, remote id v6, admin group, TE metric, IGP metric, opaque, bandwidth bits, reservable bits,
+//                [unreserved bits ...], adjacency SID, [srlg ...], End.X ([] | [behaviour, flags, algorithm, weight, [sid text ...], structure ([] | four lengths)]),
+//                delay anomalous, delay, min/max anomalous, min, max, variation]
+//   prefix = [] | [IGP flags ([] | four 0/1), opaque, prefix SID, [[algorithm, flags, sid] ...]]
+//   peer segment = [] | [node SID, adjacency SID, set SID], each [] | [flags ([] | four 0/1), weight, sid]
+//   extras: 0 none | 1 an SRv6 SID part | 2 a flex-algo definition | 3 a flex-algo prefix metric (parts the converter has no encoding for)
+fn ls_ranges_of(v: &Val) -> Vec<api::LsSrRange> {
+    v.list().iter().map(|r| api::LsSrRange { begin: r.at(0).u32(), end: r.at(1).u32() }).collect()
+}
+fn ls_ranges_val(r: &[api::LsSrRange]) -> Val {
+    Val::L(r.iter().map(|r| Val::L(vec![Val::n(r.begin), Val::n(r.end)])).collect())
+}
+fn ls_peer_sid_of(v: &Val) -> Option<api::LsBgpPeerSegmentSid> {
+    let l = v.list();
+    if l.is_empty() {
+        return None;
+    }
+    let f = l[0].list();
+    Some(api::LsBgpPeerSegmentSid {
+        flags: if f.is_empty() {
+            None
+        } else {
+            Some(api::LsBgpPeerSegmentSidFlags { value: f[0].bool(), local: f[1].bool(), backup: f[2].bool(), persistent: f[3].bool() })
+        },
+        weight: l[1].u32(),
+        sid: l[2].u32(),
+    })
+}
+fn ls_peer_sid_val(s: &Option<api::LsBgpPeerSegmentSid>) -> Val {
+    match s {
+        None => Val::L(vec![]),
+        Some(s) => Val::L(vec![
+            match &s.flags {
+                None => Val::L(vec![]),
+                Some(f) => Val::L(vec![Val::b(f.value), Val::b(f.local), Val::b(f.backup), Val::b(f.persistent)]),
+            },
+            Val::n(s.weight),
+            Val::n(s.sid),
+        ]),
+    }
+}
+
+pub(crate) fn ls_attr_api_of(v: &Val) -> api::LsAttribute {
+    let node = {
+        let l = v.at(0).list();
+        if l.is_empty() {
+            None
+        } else {
+            let f = l[1].list();
+            let c = l[6].list();
+            let b = l[8].list();
+            Some(api::LsAttributeNode {
+                name: s_of(&l[0]),
+                flags: if f.is_empty() {
+                    None
+                } else {
+                    Some(api::LsNodeFlags {
+                        overload: f[0].bool(),
+                        attached: f[1].bool(),
+                        external: f[2].bool(),
+                        abr: f[3].bool(),
+                        router: f[4].bool(),
+                        v6: f[5].bool(),
+                    })
+                },
+                local_router_id: s_of(&l[2]),
+                local_router_id_v6: s_of(&l[3]),
+                isis_area: l[4].bytes(),
+                opaque: l[5].bytes(),
+                sr_capabilities: if c.is_empty() {
+                    None
+                } else {
+                    Some(api::LsSrCapabilities { ipv4_supported: c[0].bool(), ipv6_supported: c[1].bool(), ranges: ls_ranges_of(&c[2]) })
+                },
+                sr_algorithms: l[7].bytes(),
+                sr_local_block: if b.is_empty() { None } else { Some(api::LsSrLocalBlock { ranges: ls_ranges_of(&b[0]) }) },
+                flex_algo_defs: if v.at(4).int() == 2 { vec![api::LsAttributeFlexAlgoDef::default()] } else { vec![] },
+            })
+        }
+    };
+    let link = {
+        let l = v.at(1).list();
+        if l.is_empty() {
+            None
+        } else {
+            let x = l[14].list();
+            Some(api::LsAttributeLink {
+                name: s_of(&l[0]),
+                local_router_id: s_of(&l[1]),
+                local_router_id_v6: s_of(&l[2]),
+                remote_router_id: s_of(&l[3]),
+                remote_router_id_v6: s_of(&l[4]),
+                admin_group: l[5].u32(),
+                default_te_metric: l[6].u32(),
+                igp_metric: l[7].u32(),
+                opaque: l[8].bytes(),
+                bandwidth: f32::from_bits(l[9].u32()),
+                reservable_bandwidth: f32::from_bits(l[10].u32()),
+                unreserved_bandwidth: l[11].list().iter().map(|b| f32::from_bits(b.u32())).collect(),
+                sr_adjacency_sid: l[12].u32(),
+                srlgs: l[13].list().iter().map(|s| s.u32()).collect(),
+                srv6_end_x_sid: if x.is_empty() {
+                    None
+                } else {
+                    let ss = x[5].list();
+                    Some(api::LsSrv6EndXsid {
+                        endpoint_behavior: x[0].u32(),
+                        flags: x[1].u32(),
+                        algorithm: x[2].u32(),
+                        weight: x[3].u32(),
+                        reserved: 0,
+                        sids: x[4].list().iter().map(s_of).collect(),
+                        srv6_sid_structure: if ss.is_empty() {
+                            None
+                        } else {
+                            Some(api::LsSrv6SidStructure {
+                                local_block: ss[0].u32(),
+                                local_node: ss[1].u32(),
+                                local_func: ss[2].u32(),
+                                local_arg: ss[3].u32(),
+                            })
+                        },
+                    })
+                },
+                unidirectional_link_delay_anomalous: l[15].bool(),
+                unidirectional_link_delay: l[16].u32(),
+                min_max_unidirectional_link_delay_anomalous: l[17].bool(),
+                min_unidirectional_link_delay: l[18].u32(),
+                max_unidirectional_link_delay: l[19].u32(),
+                unidirectional_delay_variation: l[20].u32(),
+            })
+        }
+    };
+    let prefix = {
+        let l = v.at(2).list();
+        if l.is_empty() {
+            None
+        } else {
+            let f = l[0].list();
+            Some(api::LsAttributePrefix {
+                igp_flags: if f.is_empty() {
+                    None
+                } else {
+                    Some(api::LsIgpFlags { down: f[0].bool(), no_unicast: f[1].bool(), local_address: f[2].bool(), propagate_nssa: f[3].bool() })
+                },
+                opaque: l[1].bytes(),
+                sr_prefix_sid: l[2].u32(),
+                sr_prefix_sids: l[3]
+                    .list()
+                    .iter()
+                    .map(|p| api::LsAttributePrefixSid { algorithm: p.at(0).u32(), flags: p.at(1).u32(), sid: p.at(2).u32() })
+                    .collect(),
+                fad_prefix_metrics: if v.at(4).int() == 3 { vec![api::LsAttributeFadPrefixMetric::default()] } else { vec![] },
+            })
+        }
+    };
+    let bgp_peer_segment = {
+        let l = v.at(3).list();
+        if l.is_empty() {
+            None
+        } else {
+            Some(api::LsAttributeBgpPeerSegment {
+                bgp_peer_node_sid: ls_peer_sid_of(&l[0]),
+                bgp_peer_adjacency_sid: ls_peer_sid_of(&l[1]),
+                bgp_peer_set_sid: ls_peer_sid_of(&l[2]),
+            })
+        }
+    };
+    api::LsAttribute {
+        node,
+        link,
+        prefix,
+        bgp_peer_segment,
+        srv6_sid: if v.at(4).int() == 1 {
+            Some(api::LsAttributeSrv6Sid {
+                srv6_sid_structure: Some(api::LsSrv6SidStructure { local_block: 40, local_node: 24, local_func: 16, local_arg: 0 }),
+                ..Default::default()
+            })
+        } else {
+            None
+        },
+    }
+}
+
+pub(crate) fn ls_attr_api_val(a: &api::LsAttribute) -> Val {
+    let node = match &a.node {
+        None => Val::L(vec![]),
+        Some(n) => Val::L(vec![
+            s_val(&n.name),
+            match &n.flags {
+                None => Val::L(vec![]),
+                Some(f) => Val::L(vec![Val::b(f.overload), Val::b(f.attached), Val::b(f.external), Val::b(f.abr), Val::b(f.router), Val::b(f.v6)]),
+            },
+            s_val(&n.local_router_id),
+            s_val(&n.local_router_id_v6),
+            Val::from_bytes(&n.isis_area),
+            Val::from_bytes(&n.opaque),
+            match &n.sr_capabilities {
+                None => Val::L(vec![]),
+                Some(c) => Val::L(vec![Val::b(c.ipv4_supported), Val::b(c.ipv6_supported), ls_ranges_val(&c.ranges)]),
+            },
+            Val::from_bytes(&n.sr_algorithms),
+            match &n.sr_local_block {
+                None => Val::L(vec![]),
+                Some(b) => Val::L(vec![ls_ranges_val(&b.ranges)]),
+            },
+        ]),
+    };
+    let link = match &a.link {
+        None => Val::L(vec![]),
+        Some(l) => Val::L(vec![
+            s_val(&l.name),
+            s_val(&l.local_router_id),
+            s_val(&l.local_router_id_v6),
+            s_val(&l.remote_router_id),
+            s_val(&l.remote_router_id_v6),
+            Val::n(l.admin_group),
+            Val::n(l.default_te_metric),
+            Val::n(l.igp_metric),
+            Val::from_bytes(&l.opaque),
+            Val::n(l.bandwidth.to_bits()),
+            Val::n(l.reservable_bandwidth.to_bits()),
+            Val::L(l.unreserved_bandwidth.iter().map(|b| Val::n(b.to_bits())).collect()),
+            Val::n(l.sr_adjacency_sid),
+            Val::L(l.srlgs.iter().map(|s| Val::n(*s)).collect()),
+            match &l.srv6_end_x_sid {
+                None => Val::L(vec![]),
+                Some(x) => Val::L(vec![
+                    Val::n(x.endpoint_behavior),
+                    Val::n(x.flags),
+                    Val::n(x.algorithm),
+                    Val::n(x.weight),
+                    Val::L(x.sids.iter().map(|s| s_val(s)).collect()),
+                    match &x.srv6_sid_structure {
+                        None => Val::L(vec![]),
+                        Some(s) => Val::L(vec![Val::n(s.local_block), Val::n(s.local_node), Val::n(s.local_func), Val::n(s.local_arg)]),
+                    },
+                ]),
+            },
+            Val::b(l.unidirectional_link_delay_anomalous),
+            Val::n(l.unidirectional_link_delay),
+            Val::b(l.min_max_unidirectional_link_delay_anomalous),
+            Val::n(l.min_unidirectional_link_delay),
+            Val::n(l.max_unidirectional_link_delay),
+            Val::n(l.unidirectional_delay_variation),
+        ]),
+    };
+    let prefix = match &a.prefix {
+        None => Val::L(vec![]),
+        Some(p) => Val::L(vec![
+            match &p.igp_flags {
+                None => Val::L(vec![]),
+                Some(f) => Val::L(vec![Val::b(f.down), Val::b(f.no_unicast), Val::b(f.local_address), Val::b(f.propagate_nssa)]),
+            },
+            Val::from_bytes(&p.opaque),
+            Val::n(p.sr_prefix_sid),
+            Val::L(p.sr_prefix_sids.iter().map(|s| Val::L(vec![Val::n(s.algorithm), Val::n(s.flags), Val::n(s.sid)])).collect()),
+        ]),
+    };
+    let bps = match &a.bgp_peer_segment {
+        None => Val::L(vec![]),
+        Some(b) => Val::L(vec![
+            ls_peer_sid_val(&b.bgp_peer_node_sid),
+            ls_peer_sid_val(&b.bgp_peer_adjacency_sid),
+            ls_peer_sid_val(&b.bgp_peer_set_sid),
+        ]),
+    };
+    Val::L(vec![node, link, prefix, bps, Val::b(a.srv6_sid.is_some())])
+}
+
+// [18, type, protocol id, identifier, inner] LsAddrPrefix; inner = [0] no route | [1, node] | [2, local, remote, link descriptor]
+//   | [3, local, prefix descriptor] (IPv4) | [4, local, prefix descriptor] (IPv6) | [5, local, sids ([] = no information | [[text ...]]), multi-topology ids ([] | [[id ...]])]
+//   node = [] | [asn, bgp-ls id, ospf area, pseudonode, igp router id, bgp router id, confederation member]
+//   link descriptor = [] | [local id, remote id, interface v4, neighbour v4, interface v6, neighbour v6]
+//   prefix descriptor = [] | [[reachability text ...], ospf route type]
+fn ls_node_of(v: &Val) -> Option<api::LsNodeDescriptor> {
+    let l = v.list();
+    if l.is_empty() {
+        return None;
+    }
+    Some(api::LsNodeDescriptor {
+        asn: l[0].u32(),
+        bgp_ls_id: l[1].u32(),
+        ospf_area_id: l[2].u32(),
+        pseudonode: l[3].bool(),
+        igp_router_id: s_of(&l[4]),
+        bgp_router_id: s_of(&l[5]),
+        bgp_confederation_member: l[6].u32(),
+    })
+}
+fn ls_node_val(n: &Option<api::LsNodeDescriptor>) -> Val {
+    match n {
+        None => Val::L(vec![]),
+        Some(n) => Val::L(vec![
+            Val::n(n.asn),
+            Val::n(n.bgp_ls_id),
+            Val::n(n.ospf_area_id),
+            Val::b(n.pseudonode),
+            s_val(&n.igp_router_id),
+            s_val(&n.bgp_router_id),
+            Val::n(n.bgp_confederation_member),
+        ]),
+    }
+}
+fn ls_pfx_desc_of(v: &Val) -> Option<api::LsPrefixDescriptor> {
+    let l = v.list();
+    if l.is_empty() {
+        return None;
+    }
+    Some(api::LsPrefixDescriptor { ip_reachability: l[0].list().iter().map(s_of).collect(), ospf_route_type: l[1].int() as i32 })
+}
+fn ls_pfx_desc_val(p: &Option<api::LsPrefixDescriptor>) -> Val {
+    match p {
+        None => Val::L(vec![]),
+        Some(p) => Val::L(vec![Val::L(p.ip_reachability.iter().map(|s| s_val(s)).collect()), Val::n(p.ospf_route_type)]),
+    }
+}
+
+pub(crate) fn ls_addr_prefix_of(l: &[Val]) -> api::LsAddrPrefix {
+    use api::ls_addr_prefix::ls_nlri::Nlri as O;
+    let x = l[4].list();
+    let inner = match x[0].int() {
+        0 => None,
+        1 => Some(O::Node(api::LsNodeNlri { local_node: ls_node_of(&x[1]) })),
+        2 => {
+            let d = x[3].list();
+            Some(O::Link(api::LsLinkNlri {
+                local_node: ls_node_of(&x[1]),
+                remote_node: ls_node_of(&x[2]),
+                link_descriptor: if d.is_empty() {
+                    None
+                } else {
+                    Some(api::LsLinkDescriptor {
+                        link_local_id: d[0].u32(),
+                        link_remote_id: d[1].u32(),
+                        interface_addr_ipv4: s_of(&d[2]),
+                        neighbor_addr_ipv4: s_of(&d[3]),
+                        interface_addr_ipv6: s_of(&d[4]),
+                        neighbor_addr_ipv6: s_of(&d[5]),
+                    })
+                },
+            }))
+        }
+        3 => Some(O::PrefixV4(api::LsPrefixV4nlri { local_node: ls_node_of(&x[1]), prefix_descriptor: ls_pfx_desc_of(&x[2]) })),
+        4 => Some(O::PrefixV6(api::LsPrefixV6nlri { local_node: ls_node_of(&x[1]), prefix_descriptor: ls_pfx_desc_of(&x[2]) })),
+        _ => {
+            let s = x[2].list();
+            let m = x[3].list();
+            Some(O::Srv6Sid(api::LsSrv6Sidnlri {
+                local_node: ls_node_of(&x[1]),
+                srv6_sid_information: if s.is_empty() {
+                    None
+                } else {
+                    Some(api::LsSrv6SidInformation { sids: s[0].list().iter().map(s_of).collect() })
+                },
+                multi_topo_id: if m.is_empty() {
+                    None
+                } else {
+                    Some(api::LsMultiTopologyIdentifier { multi_topo_ids: m[0].list().iter().map(|i| i.u32()).collect() })
+                },
+            }))
+        }
+    };
+    api::LsAddrPrefix {
+        r#type: l[1].int() as i32,
+        nlri: inner.map(|n| api::ls_addr_prefix::LsNlri { nlri: Some(n) }),
+        length: 0,
+        protocol_id: l[2].int() as i32,
+        identifier: l[3].u64(),
+    }
+}
+
+pub(crate) fn ls_addr_prefix_val(a: &api::LsAddrPrefix) -> Val {
+    use api::ls_addr_prefix::ls_nlri::Nlri as O;
+    let inner = match a.nlri.as_ref().and_then(|n| n.nlri.as_ref()) {
+        None => Val::L(vec![i(0)]),
+        Some(O::Node(n)) => Val::L(vec![i(1), ls_node_val(&n.local_node)]),
+        Some(O::Link(n)) => Val::L(vec![
+            i(2),
+            ls_node_val(&n.local_node),
+            ls_node_val(&n.remote_node),
+            match &n.link_descriptor {
+                None => Val::L(vec![]),
+                Some(d) => Val::L(vec![
+                    Val::n(d.link_local_id),
+                    Val::n(d.link_remote_id),
+                    s_val(&d.interface_addr_ipv4),
+                    s_val(&d.neighbor_addr_ipv4),
+                    s_val(&d.interface_addr_ipv6),
+                    s_val(&d.neighbor_addr_ipv6),
+                ]),
+            },
+        ]),
+        Some(O::PrefixV4(n)) => Val::L(vec![i(3), ls_node_val(&n.local_node), ls_pfx_desc_val(&n.prefix_descriptor)]),
+        Some(O::PrefixV6(n)) => Val::L(vec![i(4), ls_node_val(&n.local_node), ls_pfx_desc_val(&n.prefix_descriptor)]),
+        Some(O::Srv6Sid(n)) => Val::L(vec![
+            i(5),
+            ls_node_val(&n.local_node),
+            match &n.srv6_sid_information {
+                None => Val::L(vec![]),
+                Some(s) => Val::L(vec![Val::L(s.sids.iter().map(|t| s_val(t)).collect())]),
+            },
+            match &n.multi_topo_id {
+                None => Val::L(vec![]),
+                Some(m) => Val::L(vec![Val::L(m.multi_topo_ids.iter().map(|t| Val::n(*t)).collect())]),
+            },
+        ]),
+    };
+    Val::L(vec![i(18), Val::n(a.r#type), Val::n(a.protocol_id), Val::n(a.identifier), inner])
 }
